@@ -495,6 +495,30 @@ def result_oracle(i_seed):
                 want_r = "parse"
             got_r = got_ret if got_fail is None else "parse"
             return None if repr(got_r) == repr(want_r) else "%r (eager=%s): generator return %r gave %r, expected %r" % (src, eager, retv, got_r, want_r)
+        if kind == "asyncgen" and rng.random() < 0.5:
+            # an async generator driven by asend(): the value it yields in answer to a sent value is part of the transcript
+            src = ("import typing\nasync def f(n) -> typing.AsyncGenerator[int, int]:\n    for i in range(n):\n        s = yield i * 10\n"
+                   "        if s is not None:\n            yield 1000 + s\n")
+            exec(src, ns); g = utype.parse(ns["f"], eager=eager)
+            sends = [rng.choice([0, "0", 5, "7", None, False, 3]) for _ in range(rng.randint(1, 4))]
+
+            async def drive(fn, conv_send):
+                it = fn(len(sends)); out = []
+                try:
+                    out.append(await it.__anext__())
+                    for x in sends:
+                        out.append(await it.asend(conv_send(x)) if x is not None else await it.__anext__())
+                        if x is not None:
+                            out.append(await it.__anext__())
+                except StopAsyncIteration:
+                    out.append("stop")
+                return out
+            want = asyncio.run(drive(ns["f"], lambda x: cv("int", x)))
+            try:
+                got = asyncio.run(drive(g, lambda x: x))
+            except exc.ParseError:
+                got = "parse"
+            return None if repr(got) == repr(want) else "%r (eager=%s): asends %r gave %r, the undecorated async generator with converted sends gives %r" % (src, eager, sends, got, want)
         if kind == "asyncgen":
             src = ("import typing\nasync def f(vs) -> typing.AsyncGenerator[%s, None]:\n    for v in vs:\n        yield v\n" % yt)
             exec(src, ns); g = utype.parse(ns["f"], eager=eager)
